@@ -84,3 +84,71 @@ structure InvBasic (s : State) : Prop where
 def InvDeposit (s : State) : Prop := s.bal s.cfg.deposit = depositSum s
 
 end SM
+
+namespace SM
+
+/-- contexts stored are well-formed: positive timeout, and a repeated context's frequency is
+    not below its timeout (so a next batch never starts before the previous one expired) -/
+def InvCtxWF (s : State) : Prop :=
+  ∀ c x, Map.get s.ctxs c = some x → 1 ≤ x.timeout ∧ (x.rep = true → x.timeout ≤ (x.freq : Int))
+
+/-- C11 (first sentence), C10 (single flight): the two queues, their per-context pointers,
+    and the contexts -/
+structure InvQueues (s : State) : Prop where
+  newMirror : ∀ h c, (h, c) ∈ s.newQ ↔ Map.get s.newH c = some h
+  expMirror : ∀ h c, (h, c) ∈ s.expQ ↔ Map.get s.expH c = some h
+  single    : ∀ c, Map.get s.newH c = none ∨ Map.get s.expH c = none
+  newFuture : ∀ c h, Map.get s.newH c = some h → s.height ≤ h ∧ (Map.get s.ctxs c).isSome
+  expFuture : ∀ c h, Map.get s.expH c = some h → s.height ≤ h ∧ (Map.get s.ctxs c).isSome
+  runningQ  : ∀ c x, Map.get s.ctxs c = some x → x.state = .running →
+                (Map.get s.newH c).isSome ∨ (Map.get s.expH c).isSome
+  used      : ∀ c, (Map.get s.ctxs c).isSome → c ∈ s.usedIds
+
+/-- C11 (second sentence), C16: request records, responses and the two pending-request
+    indexes belong to the batch in flight of an existing context -/
+structure InvReqs (s : State) : Prop where
+  reqCtx : ∀ r q, Map.get s.reqs r = some q →
+      ∃ x, Map.get s.ctxs r.ctx = some x ∧ r.batch = x.batch ∧ Map.get s.expH r.ctx = some q.expH
+  activeReq : ∀ r, r ∈ s.activeI → (Map.get s.reqs r).isSome
+  activeMirror : ∀ svc p e r, (svc, p, e, r) ∈ s.activeB ↔
+      (r ∈ s.activeI ∧ ∃ q x, Map.get s.reqs r = some q ∧ Map.get s.ctxs r.ctx = some x ∧
+        svc = x.svc ∧ p = q.prov ∧ e = q.expH)
+  respReq : ∀ r, (Map.get s.resps r).isSome → (Map.get s.reqs r).isSome ∧ r ∉ s.activeI
+  activeNodup : s.activeI.Nodup
+  reqBound : ∀ r q, Map.get s.reqs r = some q → (∃ x, Map.get s.ctxs r.ctx = some x ∧
+      (Map.get s.bindings (x.svc, q.prov)).isSome)
+
+/-- C01: the escrow account holds exactly the pending request fees plus the unwithdrawn earnings -/
+def InvEscrow (s : State) : Prop := s.bal s.cfg.escrow = activeFees s + earnedSum s
+
+/-- keys of the summed maps are duplicate-free -/
+structure InvKeys (s : State) : Prop where
+  earned : Map.NodupKeys s.earned
+  ownerEarned : Map.NodupKeys s.ownerEarned
+  bindings : Map.NodupKeys s.bindings
+
+/-- C15: every binding's owner is the provider's owner; indexes are projections of the bindings -/
+structure InvIndexes (s : State) : Prop where
+  ownerOf : ∀ svc p b, Map.get s.bindings (svc, p) = some b → Map.get s.owner p = some b.owner
+  ownerProv : ∀ o p, (o, p) ∈ s.ownerProv ↔ Map.get s.owner p = some o
+  ownerBind : ∀ o svc p, (o, svc, p) ∈ s.ownerBind ↔ ∃ b, Map.get s.bindings (svc, p) = some b ∧ b.owner = o
+  pricing : ∀ k b, Map.get s.bindings k = some b →
+      ∃ p, Map.get s.pricing k = some p ∧ parsePricing b.text = .ok p ∧ validPricing p = true
+  pricingOnly : ∀ k, (Map.get s.pricing k).isSome → (Map.get s.bindings k).isSome
+  defined : ∀ svc p, (Map.get s.bindings (svc, p)).isSome → (Map.get s.defs svc).isSome
+  ownerHas : ∀ p o, Map.get s.owner p = some o → ∃ svc, (Map.get s.bindings (svc, p)).isSome
+
+/-- C14: an available binding holds the minimum deposit for its price -/
+def InvMinDep (s : State) : Prop :=
+  ∀ k b, Map.get s.bindings k = some b → b.avail = true →
+    ∃ md, minDeposit s.params (storedPricing s k.1 k.2) = some md ∧ md ≤ b.deposit
+
+/-- C13: an owner's recorded earnings are the sum of the earnings of the providers it owns -/
+def ownedEarned (s : State) (o : Addr) : Nat :=
+  Map.total (fun n : Nat => n) (s.earned.filter (fun p => Map.get s.owner p.1 = some o))
+
+def InvOwnerEarned (s : State) : Prop :=
+  (∀ o, balOf s.ownerEarned o = ownedEarned s o) ∧
+  (∀ p, (Map.get s.earned p).isSome → (Map.get s.owner p).isSome)
+
+end SM
